@@ -2099,6 +2099,54 @@ def c14f(F, R):
             R.bad(key, f"functions are registered under a selection of the entry's labels ({selective or ekey(it)[:40]}): a call through another label of the same entry is not recognised", loc(m))
 
 
+@rule("C11", "C11.h.entry-predicates", floor=8)
+def c11h(F, R):
+    """the function list is built from the nodes for which is_function_entry() holds, so every FuncEntry node - interrupt handler or not - must satisfy it (and nothing else may); is_handler_function_entry is the FuncEntry nodes flagged as handlers, is_program_entry the ProgramEntry node, is_any_entry their union; the CfgNode wrappers forward to the method of the same name; FunctionMarkupPass selects entries by is_function_entry"""
+    from .nodeprops import eval_prop, Unx
+    want = {
+        "is_function_entry": lambda v, h: v == "FuncEntry",
+        "is_handler_function_entry": lambda v, h: v == "FuncEntry" and h,
+        "is_program_entry": lambda v, h: v == "ProgramEntry",
+        "is_any_entry": lambda v, h: v in ("FuncEntry", "ProgramEntry"),
+    }
+    vs = F.variants(PNODE)
+    for need in ("FuncEntry", "ProgramEntry"):
+        if need not in vs:
+            raise Anchor(f"ParserNode::{need} not found")
+    for m, exp in want.items():
+        sp = F.fn(F.method(PNODE, m, trait=IPROPS))["sp"]
+        wrong = []
+        for v in vs:
+            for h in ((True, False) if v == "FuncEntry" else (False,)):
+                try:
+                    r = eval_prop(F, m, v, {"is_interrupt_handler": h})
+                except Unx as ex:
+                    wrong.append(f"{v}: UNEXTRACTABLE ({ex})")
+                    continue
+                if r is not exp(v, h):
+                    wrong.append(f"{v}{' (interrupt handler)' if v == 'FuncEntry' and h else ''}: {r}, expected {exp(v, h)}")
+        if wrong:
+            R.bad(f"{m}|ParserNode", f"ParserNode::{m} is wrong for: " + "; ".join(wrong[:4]) + " - e.g. a FuncEntry that is not a function entry is skipped by FunctionMarkupPass: the label installed as interrupt vector (or named by jal) is no function, its code has no owner", sp)
+        else:
+            R.ok(f"{m}|ParserNode", detail=f"{m} evaluated on all {len(vs)} variants (+ handler flag)", where=sp)
+        # wrapper on CfgNode forwards to the same method
+        try:
+            wp = F.method(CFGNODE, m, trait=IPROPS)
+        except Exception:
+            wp = None
+        if not wp:
+            R.bad(f"{m}|CfgNode", f"CfgNode::{m} not found", None)
+            continue
+        wb = F.fn(wp)["hir"]["value"]
+        b = peel(wb)
+        while b.get("k") == "Block" and not b.get("stmts") and b.get("expr") is not None:
+            b = peel(b["expr"])
+        if b.get("k") == "MethodCall" and b["name"] == m and not b["args"] and peel(b["recv"]).get("k") == "MethodCall" and peel(b["recv"])["name"] == "node" and ekey(peel(b["recv"])["recv"]).lstrip("&*") == "self":
+            R.ok(f"{m}|CfgNode", detail=f"self.node().{m}()", where=F.fn(wp)["sp"])
+        else:
+            R.bad(f"{m}|CfgNode", f"CfgNode::{m} does not forward to ParserNode::{m} of its node ({ekey(b)[:60]})", F.fn(wp)["sp"])
+
+
 @rule("C13", "C13.g.zero-register-operands-fold-as-zero", floor=1)
 @rule("C01", "C01.m.zero-register-operands-fold-as-zero", floor=1)
 def c01m(F, R):
